@@ -17,12 +17,38 @@ func init() { register("C10", c10) }
 func c10(r *core.Run) {
 	r.Expl = "C10 (condition text parsed robustly): decides (1) every operator spelling documented in the goQuery help tables (extracted from the constant help text) is matched — bare for symbol forms, enclosed by blanks for word forms — by a regular expression that tokenize.go lists under the same base operator and by no expression listed under a different base operator (the rewrite rules are applied in map-iteration order, so a spelling claimed by two operators has a random meaning); all listed expressions compile; (2) parser totality: every access to the token slice is guarded by the end-of-input test, parseConditional rejects parse errors and trailing tokens before returning a tree; (3) the prefix length taken from user text is bounded on both sides before it indexes (shared with C09). NOT decided: that sanitise → tokenise → join → parse preserves meaning or is idempotent; interaction between consecutive word operators sharing a blank (e.g. 'x and not y' is rejected today — observation F07, not the result of a check); behaviour on arbitrary (fuzzed) strings."
 	r.Floor = 40
-	r.Rules = append(r.Rules, "help-vs-grammar: constant regexps compiled and applied to the documented spellings at analysis time", "parser-totality", "parsed-int-bounds", "conversion-applied (P1)")
+	r.Rules = append(r.Rules, "help-vs-grammar: constant regexps compiled and applied to the documented spellings at analysis time", "parser-totality", "parsed-int-bounds", "conversion-applied (P1)", "window-slice-bounded: x[a:a+K] needs a test relating a to len(x)")
 	p := r.Prog("cgo")
 	c10HelpGrammar(r, p)
 	c10Sanitize(r, p)
 	c10Parser(r, p)
 	ruleNetmaskBounds(r, p)
+	c10Windows(r, p)
+}
+
+// c10Windows: no fixed-size window at a variable offset without a length test, in everything that handles the tokens of
+// a condition: tokenizer, parser, node construction and the error value that reports a rejected condition (its Error()
+// method runs for every rejected input).
+func c10Windows(r *core.Run, p *core.Prog) {
+	const rule = "window-slice-bounded"
+	if err := windowSliceSelfTest(); err != nil {
+		r.Undecided(rule, "self-test", "-", "the rule does not behave as specified on its fixture: "+err.Error())
+		return
+	}
+	n := 0
+	for _, rel := range []string{"pkg/goDB/conditions", pkgNode, "pkg/types"} {
+		for _, fn := range p.Funcs(rel) {
+			if rel == "pkg/types" && !strings.HasPrefix(fn.Name, "ParseError.") {
+				continue
+			}
+			n++
+			hz := windowSliceHazards(fn.Info(), fn.Decl.Body, p.Rel)
+			if len(hz) > 0 {
+				r.Check(rule, fn.Where(), p.Rel(fn.Decl.Pos()), false, strings.Join(hz, "; "))
+			}
+		}
+	}
+	r.Check(rule, "functions-scanned", "-", n >= 20, fmt.Sprintf("%d functions of the condition packages and of types.ParseError scanned; fixture verdicts as specified", n))
 }
 
 func c10HelpGrammar(r *core.Run, p *core.Prog) {
